@@ -9,7 +9,7 @@
    Proofs/ConfigFacts (approved_build, counter_entry, stack_entry). *)
 From Coq Require Import List ZArith NArith Bool.
 From Tele Require Import Lib.Bytes Lib.Str Lib.Assoc Lib.Calendar Model.Config Model.ApprovalSpec Model.Report
-  Model.Approval Proofs.ConfigFacts Proofs.AggregateFacts Proofs.ReportFacts Proofs.ApprovalFacts Proofs.ApprovalOracle Proofs.ReportPrograms Proofs.ApprovalReports.
+  Model.Approval Proofs.ConfigFacts Proofs.AggregateFacts Proofs.ReportFacts Proofs.ApprovalFacts Proofs.ApprovalOracle Proofs.ReportPrograms Proofs.ApprovalReports Proofs.ApprovalSequences.
 Import ListNotations.
 From Coq Require Import String. Open Scope string_scope. Open Scope N_scope. Open Scope list_scope.
 
@@ -209,6 +209,47 @@ Theorem C11_viewer_report_oracle_model : forall u p, plain_keys p ->
   viewer_report_check u p (viewer_report_summary (new_config u) p) = [].
 Proof. exact viewer_report_check_model. Qed.
 Print Assumptions C11_viewer_report_oracle_model.
+
+(* ---- Sequences of requests.  One upload handler: every body is decoded into
+   a fresh report, so the answer to a request in ANY sequence is the answer to
+   that request alone; hence the server accepts every report the uploader
+   produces whatever was posted before, and refuses one with an item outside
+   the configuration whatever was posted before. *)
+Theorem C11_serve_sequence_pointwise : forall c before r after,
+  nth (List.length before) (serve_sequence c (before ++ r :: after)) 0 =
+  server_status (server_validate c (fst r) (snd r)).
+Proof. exact serve_sequence_pointwise. Qed.
+Print Assumptions C11_serve_sequence_pointwise.
+
+Theorem C11_server_accepts_uploader_in_sequence :
+  forall gate u cfgver week lastweek x files local up before after,
+  create_report gate u cfgver week lastweek x files = Some (local, Some up) ->
+  parse_date week <> None -> x_is_zero x = false ->
+  nth (List.length before) (serve_sequence (new_config u) (before ++ (true, up) :: after)) 0 = 200.
+Proof. exact server_accepts_uploader_in_sequence. Qed.
+Print Assumptions C11_server_accepts_uploader_in_sequence.
+
+Theorem C11_server_rejects_outside_in_sequence : forall u sem r p before after,
+  In p (r_programs r) -> ~ prog_within u p ->
+  nth (List.length before) (serve_sequence (new_config u) (before ++ (sem, r) :: after)) 0 = 400.
+Proof. exact server_rejects_outside_in_sequence. Qed.
+Print Assumptions C11_server_rejects_outside_in_sequence.
+
+(* One viewer Server: configAt resolves the requested configuration version on
+   every request; the page for a request in ANY sequence is the page of that
+   request's configuration, and each of its summaries passes the oracle under
+   that configuration (so the page for "latest" agrees with the uploader, which
+   downloads the latest configuration at each run, whatever pages were shown before). *)
+Theorem C11_viewer_pages_pointwise : forall st files before r after,
+  nth (List.length before) (viewer_pages st files (before ++ r :: after)) [] =
+  viewer_page (config_at st (fst r) (snd r)) files.
+Proof. exact viewer_pages_pointwise. Qed.
+Print Assumptions C11_viewer_pages_pointwise.
+
+Theorem C11_viewer_summary_oracle_model : forall u f,
+  viewer_summary_check u f (viewer_summary (new_config u) f) = [].
+Proof. exact viewer_summary_check_model. Qed.
+Print Assumptions C11_viewer_summary_oracle_model.
 
 (* ---- Non-vacuity *)
 Definition ex_cfg : upload_cfg :=
